@@ -12,11 +12,13 @@ use crate::world::{mk_pool, Unsealed, World};
 
 pub struct C03 {
     pools: Vec<(usize, rayon::ThreadPool)>,
+    /// verdicts on re-signed / unsigned variants of the coming batch, taken before anything of it was validated
+    cold: Vec<(Vec<Transaction>, bool)>,
 }
 
 impl C03 {
     pub fn new(shard: usize) -> Self {
-        C03 { pools: vec![(1, mk_pool(shard, 1)), (4, mk_pool(shard, 4))] }
+        C03 { pools: vec![(1, mk_pool(shard, 1)), (4, mk_pool(shard, 4))], cold: vec![] }
     }
 }
 
@@ -107,8 +109,58 @@ fn outcome_of(pool: &rayon::ThreadPool, st: &Unsealed, txs: &[Transaction]) -> R
     })
 }
 
+fn variants(txs: &[Transaction]) -> Vec<Vec<Transaction>> {
+    // same signature-free bodies, other signature bytes
+    let mut out = vec![];
+    if txs.iter().any(|t| t.sigs.iter().any(|s| !s.is_empty())) {
+        let mut a = txs.to_vec();
+        for t in a.iter_mut() {
+            t.sigs.clear();
+        }
+        out.push(a);
+        let mut b = txs.to_vec();
+        for t in b.iter_mut() {
+            for s in t.sigs.iter_mut() {
+                if !s.is_empty() {
+                    let mut v = s.to_vec();
+                    v[9] ^= 0x04;
+                    *s = v.into();
+                }
+            }
+        }
+        out.push(b);
+    }
+    out
+}
+
 impl Monitor for C03 {
+    fn before_batch(&mut self, w: &World, txs: &[Transaction], _st: &mut Stats) -> Check {
+        self.cold.clear();
+        for v in variants(txs) {
+            if let Ok(r) = outcome_of(&self.pools[0].1, &w.cur, &v) {
+                self.cold.push((v, r.is_ok()));
+            }
+        }
+        Ok(())
+    }
+
     fn on_batch(&mut self, _w: &World, ob: &BatchObs, st: &mut Stats) -> Check {
+        // the verdict on an identical (state, batch) pair must not depend on what this process validated before:
+        // the variants judged cold (before the batch itself was validated) are judged again now
+        for (v, cold_accepted) in std::mem::take(&mut self.cold) {
+            if let Ok(r) = outcome_of(&self.pools[0].1, ob.pre_state, &v) {
+                if r.is_ok() != cold_accepted {
+                    viol!(
+                        "verdict-depends-on-earlier-validations",
+                        "a batch of {} transaction(s) with altered signature bytes was {} before the properly signed batch was validated in this process and is {} afterwards, against the same state",
+                        v.len(),
+                        if cold_accepted { "accepted" } else { "rejected" },
+                        if r.is_ok() { "accepted" } else { "rejected" }
+                    );
+                }
+                st.class("cold-vs-warm-verdict-compared");
+            }
+        }
         let txs = ob.txs;
         let n = txs.len();
         if n < 2 {
@@ -288,7 +340,7 @@ pub fn run(ctx: &Ctx) -> (Outcome, String, Option<bool>) {
             r
         },
     );
-    let rule = "For every batch of >=2 transactions met in generated histories (independent, chains, fan-in/fan-out, repeated, mutated; acceptable and unacceptable), from the state it was generated for: every permutation (all n! for n<=4, otherwise identity, reverse and 22 pseudo-random ones) x rayon pools of 1 and 4 threads; (accepted?, header of apply_tx_batch(perm).seal(None)) must be identical for all, and - when accepted - equal to applying the transactions one at a time in an order where parents precede children. Every sealed block with >=2 transactions is re-validated by its parent through apply_block under 8 differently built HashSets (fresh RandomState, rotated/reversed insertion) on alternating pool sizes and must give the same result. Non-trivial = a set with a dependency for which a tested permutation puts a child before its parent; distinct by (pre-state coin root, set of transaction hashes).".to_string();
+    let rule = "For every batch of >=2 transactions met in generated histories (independent, chains, fan-in/fan-out, repeated, mutated; acceptable and unacceptable), from the state it was generated for: every permutation (all n! for n<=4, otherwise identity, reverse and 22 pseudo-random ones) x rayon pools of 1 and 4 threads; (accepted?, header of apply_tx_batch(perm).seal(None)) must be identical for all, and - when accepted - equal to applying the transactions one at a time in an order where parents precede children. Every sealed block with >=2 transactions is re-validated by its parent through apply_block under 8 differently built HashSets (fresh RandomState, rotated/reversed insertion) on alternating pool sizes and must give the same result. Before a batch is applied, variants of it with the same signature-free bodies but stripped / bit-flipped signatures are judged on a scratch copy; they are judged again after the properly signed batch has been validated and must get the same verdict (the outcome may not depend on what the process validated earlier). Non-trivial = a set with a dependency for which a tested permutation puts a child before its parent; distinct by (pre-state coin root, set of transaction hashes).".to_string();
     (out, rule, None)
 }
 
